@@ -368,7 +368,31 @@ def self_test(ctx, trace_path):
     return ok
 
 
-def standard(ctx, pid, cfgs, required, oracles, tv=None, extra=None, assumptions=None, tags=()):
+def reference_paths(edges, inits):
+    """commit-only paths (plain Submit of valid blocks, nothing else) from every initial state to every reachable chain:
+    replayed FIRST, in the same harness process, they give the reference digests of each chain before any
+    pre-execution / refused block / header sync has run in that process"""
+    succ = {}
+    for e in edges:
+        a = e["act"]
+        if a["name"] == "Submit" and a["res"] == "ok" and "point" not in a and mut_class(a["mut"]) == "valid" and a["path"] == "wire":
+            succ.setdefault(vf.canon(e["from"]), []).append(e)
+    out = []
+
+    def walk(state, steps):
+        nxt = succ.get(vf.canon(state), [])
+        if not nxt and steps:
+            out.append(steps)
+        for e in nxt:
+            walk(e["to"], steps + [{"act": e["act"], "to": e["to"]}])
+    for i in inits:
+        before = len(out)
+        walk(i, [])
+        out[before:] = [{"init": i, "steps": st} for st in out[before:]]
+    return out
+
+
+def standard(ctx, pid, cfgs, required, oracles, tv=None, extra=None, assumptions=None, tags=(), reference=False):
     """the common flow of C40 / C42 / C43: TLC exhaustive -> edge cover -> replay -> oracles -> trace validation"""
     binary = build(ctx, tags)
     cfg = cfgs[1] if ctx.thorough else cfgs[0]
@@ -383,6 +407,10 @@ def standard(ctx, pid, cfgs, required, oracles, tv=None, extra=None, assumptions
         paths, ncov = ctx.cover(edges, inits, max_len=40)
         if ncov != len(edges):
             ctx.infra("cover reaches %d of %d edges" % (ncov, len(edges)))
+        if reference:
+            ref = reference_paths(edges, inits)
+            paths = ref + paths
+            ctx.extra["reference_paths"] = len(ref)
         ctx.log("cover: %d paths, %d steps" % (len(paths), sum(len(p["steps"]) for p in paths)))
         obs = replay(ctx, binary, shapes, paths, pid.lower())
         if obs is not None:
@@ -415,7 +443,7 @@ def standard(ctx, pid, cfgs, required, oracles, tv=None, extra=None, assumptions
 
 
 # ---------------------------------------------------------------------------------------------- bin/check <ID> --replay <file>
-ALL_SHAPES = {"l1f": [["a1", "t1"]], "e": 0, "b": 2, "a": 1, "c": 3, "n0": 0, "n1": 1, "n2": 2, "n3": 3, "l0": 0,
+ALL_SHAPES = {"l0f": 1, "e": 0, "b": 2, "a": 1, "c": 3, "n0": 0, "n1": 1, "n2": 2, "n3": 3, "l0": 0,
               "l1": [["a1", "t1"]], "l2": [["a2", "t2"], ["a1", "t3"]], "l3": [["a3", "t1"], ["a3", "t3"], ["a2", "t1"]]}
 
 
